@@ -151,18 +151,8 @@ content: the coupon array in LIST / SET mode, every register in HLL mode. -/
 theorem hll_convert_preserves (p : Params) (s : St ν) (tt : TType)
     (hsz : s.mode = .hll → s.regs.size = 2^s.lgK) (hk : s.lgK ≤ p.keyBits) :
     (copyAs p s tt).mode = s.mode ∧ (copyAs p s tt).lgK = s.lgK ∧ (copyAs p s tt).tt = tt ∧
-    (copyAs p s tt).regs = s.regs ∧ (s.mode ≠ .hll → (copyAs p s tt).items = s.items) := by
-  unfold copyAs
-  cases hm : s.mode with
-  | hll =>
-    simp only
-    by_cases hc : tt = s.tt ∧ s.rebuild = false
-    · rw [if_pos hc]; exact ⟨hm, rfl, hc.1.symm, rfl, fun h => absurd rfl h⟩
-    · rw [if_neg hc]
-      have h := convertTo_regs p s tt (hsz hm) hk
-      exact ⟨h.2.2.1, h.2.1, h.2.2.2, h.1, fun h => absurd rfl h⟩
-  | list => simp [St.items]
-  | set => simp [St.items]
+    (copyAs p s tt).regs = s.regs ∧ (s.mode ≠ .hll → (copyAs p s tt).items = s.items) :=
+  copyAs_preserves p s tt hsz hk
 
 /-- Emptiness is reported exactly: `is_empty()` holds iff no (nonzero) coupon was ever offered. -/
 theorem hll_empty_iff (p : Params) (hp : p.listFitsSet) (lgK : Nat) (tt : TType) (sf : Bool) (cs : List Nat)
